@@ -87,7 +87,9 @@ Qed.
 Lemma pick_next_some : forall s w cands, cands <> [] -> pick_next s w cands <> None.
 Proof.
   intros s w [|c0 cands] H; [contradiction|]. unfold pick_next.
-  destruct (hinted_task s w); [destruct (find _ _)|]; cbn; discriminate.
+  destruct (hinted_task s w) as [t|]; [|cbn; discriminate]. cbv zeta.
+  destruct (match hinted_retained s w with Some r => find _ _ | None => None end); [discriminate|].
+  destruct (filter _ (c0 :: cands)); cbn; discriminate.
 Qed.
 
 (* a worker that is not handed a task: nothing is queued in its size class queue *)
